@@ -8,10 +8,11 @@ import core
 
 warnings.filterwarnings('ignore')
 PROP = 'C11'
-LEAN_TARGETS = ['MM.Props.C11', 'MM.Audit.C11', 'MM.Driver.Wire', 'MM.Model.Admit']
+LEAN_TARGETS = ['MM.Props.C11', 'MM.Audit.C11', 'MM.Props.SizesTie', 'MM.Driver.Wire', 'MM.Model.Admit']
 THEOREMS = ['MM.Search.' + n for n in (
     'C11_count_eq_spec', 'C11_sizes_pos', 'C11_listing_mem', 'C11_listing_nodup', 'C11_listing_length',
     'C11_upper_bound')]
+THEOREMS = list(THEOREMS) + ['MM.Search.tie_trt_sizes', 'MM.Search.tie_ctl_sizes']
 TRUSTED_BASE = [
     'Lean 4.33.0 kernel; axioms propext, Classical.choice, Quot.sound (audited per theorem); Mathlib lemmas on Nat.choose / Finset sums',
     'hand model of count_max_designs, treatment_group_size_range, _control_group_size_generator and the two group generators '
